@@ -624,6 +624,8 @@ def replay(case, rec):
 def floors(tier, m):
     out = []
     c = m['counters']
+    if c.get('report_objects_empty_at_first', 0) < 100 and not m['violation_counts']:
+        out.append('report objects that are empty at first: %s' % c.get('report_objects_empty_at_first'))
     if c.get('structures_used', 0) < 600:
         out.append('fewer than 600 structures')
     for k in MUTATIONS:
